@@ -61,7 +61,7 @@ def plan(tier, seed):
     for first in WORD:
         items.append({"kind": "words", "first": first, "maxlen": maxlen,
                       "exhaustive": f"all sequencing histories of length <={maxlen} over 8 frame kinds"})
-    n = 4000 if tier == "quick" else 60000
+    n = 4000 if tier == "quick" else 240000
     for s in range(0, n, 500):
         items.append({"kind": "rand", "start": s, "count": 500})
     return items
@@ -258,7 +258,7 @@ def gen(rng):
 
 
 def plan(tier, seed):
-    return _plan0(tier, seed) + [{"kind": "reused", "count": 120 if tier == "quick" else 3000}]
+    return _plan0(tier, seed) + [{"kind": "reused", "count": 120 if tier == "quick" else 12000}]
 
 
 def expand(item, seed):
